@@ -48,6 +48,47 @@ DESCR = {
  "C19-B": ("stale path removed only if it is a regular file", "a stale socket file at the unix path"),
  "C20-A": ("no break in the LISTEN_FDNAMES scan: last 'varlink' entry wins", "'varlink' appearing twice in LISTEN_FDNAMES"),
  "C20-B": ("names list longer than LISTEN_FDS accepted", "LISTEN_FDNAMES with more entries than LISTEN_FDS"),
+ "C01-C": ("interface lookup takes the service mutex with defer: every handler of a registered interface runs under it", "one handler blocked (e.g. writing a multi-MiB reply to a client that does not read) while other connections are active"),
+ "C01-D": ("oneway calls dispatched in a new goroutine", "a oneway call followed by another call on the same connection; a failing oneway handler"),
+ "C02-C": ("ReadBytes fast path returns the whole buffered content when its last byte is the delimiter", "three or more small frames arriving in one read"),
+ "C02-D": ("deadlines only set when the context has one", "an earlier call with a deadline, a later call without, and a pause inside the reply that outlasts the old deadline"),
+ "C03-C": ("client un-escapes \\u003c/\\u003e/\\u0026 in the marshalled frame with bytes.Replace", "a string that contains a literal backslash followed by u003c (JSON text inside a string)"),
+ "C03-D": ("go cmd.Wait() right after starting the bridge process", "bridge transport; Close then hangs (two concurrent Waits), a late read after the bridge exited fails"),
+ "C04-C": ("method string split with FieldsFunc+Join, empty parts dropped", "method strings with empty parts (doubled, leading or trailing dots)"),
+ "C04-D": ("route cache that also remembers misses and is never invalidated", "call to an unregistered interface, then RegisterInterface of it during a pause, then a call"),
+ "C05-C": ("'->' must follow on the parameter line (advanceOnLine)", "newline / CRLF / comment between ')' and '->'"),
+ "C05-D": ("empty comment lines dropped from documentation", "a doc block with an interior '#' line"),
+ "C06-C": ("interface name regexp accepts a single label", "interface names without a dot"),
+ "C06-D": ("every byte <= ' ' skipped as whitespace", "control bytes (NUL, ESC, ...) between tokens"),
+ "C07-C": ("error-reply helper parameters lose their '_' suffix", "an error parameter named like a generator local or a Go keyword"),
+ "C07-D": ("fmt import decided from the number of errors", "an interface whose errors all have no parameters"),
+ "C08-C": ("dispatcher ignores decode errors when every input is optional", "undecodable parameters sent to a method whose inputs are all optional"),
+ "C08-D": ("Upgrade stub no longer maps errors through Dispatch_Error", "an interface error returned to <Method>().Upgrade"),
+ "C09-C": ("[128]bool lookup table indexed with the raw byte", "a byte >= 0x80 where a member or type name is scanned"),
+ "C09-D": ("arrow checked by slicing two bytes without bounds test", "input ending 0 or 1 bytes after a method's input list"),
+ "C10-C": ("frames whose first non-blank byte is not '{' rejected early", "the bare literal null as a frame"),
+ "C10-D": ("package-level lock held around every reply write", "one client stalling in the middle of a reply larger than the socket buffers"),
+ "C11-C": ("receive skips zero-length frames", "a lone NUL followed by another frame"),
+ "C11-D": ("nil guard on raw parameters removed in the InvalidParameter arm", "an org.varlink.service.InvalidParameter error frame without parameters (panic)"),
+ "C12-C": ("error name trimmed with TrimSpace in ReplyError", "names with white space at the outer ends"),
+ "C12-D": ("client maps errors by member name only", "a custom error whose member name equals a standard one (com.acme.MethodNotFound)"),
+ "C13-C": ("url identity trimmed of trailing '/'", "a url ending in '/'"),
+ "C13-D": ("teardown no longer clears running", "a serve period that ends by idle timeout, then register / serve again"),
+ "C13-E": ("Resolver.GetInfo reply struct tagged json:\"interface\"", "the interfaces out-parameter of Resolver.GetInfo"),
+ "C14-C": ("running test hoisted directly after Accept", "a connection accepted just before Shutdown is neither served nor closed"),
+ "C14-D": ("listener closed through a sync.Once that is never re-armed", "the second serve period of the same object"),
+ "C15-C": ("Listen arms the deadline once before the loop", "a short connection late in the idle period (Listen only)"),
+ "C15-D": ("timeout cached in the Service and only overwritten by non-zero values", "same object served with a timeout, later without"),
+ "C16-C": ("getInterfaceDescription reads the map without the mutex", "RegisterInterface after Shutdown while a connection still drains and calls GetInterfaceDescription"),
+ "C16-D": ("Write returns without joining its helper when the context ended by deadline", "a blocking write under a deadline, caller reuses the buffer"),
+ "C17-C": ("cancelled Write uses SetDeadline instead of SetWriteDeadline", "a blocked write ended by its context (bridge: PipeCon.SetDeadline panics; others: concurrent read times out)"),
+ "C17-D": ("receive closure reads with Send's context", "receive called with a different context than Send, cancelled while blocked"),
+ "C18-C": ("buffered fast path discards everything buffered", "a raw read smaller than what is buffered behind a frame"),
+ "C18-D": ("fast path for a buffered frame discards one byte too few", "two or more frames arriving in one segment"),
+ "C19-C": ("Bind marks the service running before the OS bind and does not undo it on failure", "a valid address the OS refuses, then another Bind/Listen on the same object"),
+ "C19-D": ("empty-path check moved before the ';' cut", "'unix:;...' (panic)"),
+ "C20-C": ("FDNAMES consulted whenever it is set", "LISTEN_FDS=1 with LISTEN_FDNAMES set to something else"),
+ "C20-D": ("names split with FieldsFunc (empty entries vanish)", "a names list with an empty entry"),
 }
 
 conf = {}
